@@ -729,6 +729,8 @@ func TestC15Sites(t *testing.T) {
 		if l := slot("block comment as type doc", never); l != "" {
 			w("/* %s */\n", strings.TrimPrefix(l, "// "))
 		}
+		// interface method specs and embedded interfaces are not top-level declarations
+		w("type H interface {\n\t%s\n\tReset() %s\n\t%s\n\tfmt.Stringer\n}\n\n", slot("interface method spec doc", never), slot("trailing on interface method spec", never), slot("embedded interface doc", never))
 		w("type G int\n\n%s\n", slot("end of file", never))
 		c := c15SiteCase{Source: b.String(), Want: want}
 		ev.Eval(id)
